@@ -31,7 +31,9 @@ EXPECTED_FILES = {"atlas": ["ATestRun_eljob.py", "package_CMakeLists.txt", "quer
                   "cms_aod": ["analyzer_cfg.py", "Analyzer.cc", "BuildFile.xml", "copy_root_tree.C", "runner.sh"],
                   "cms_miniaod": ["analyzer_cfg.py", "Analyzer.cc", "BuildFile.xml", "copy_root_tree.C", "runner.sh"]}
 EXTRA_MD = [
-    {"metadata_type": "inject_code", "name": "blkA", "body_includes": ["c02_inc.h"], "private_members": ["int m_c02 = 0;"], "ctor_lines": ["m_c02 = 1;"], "initialize_lines": ["m_c02 += 1;"]},
+    # a realistic multi-line body: two if-blocks, so the closing brace line (and a statement) repeat
+    {"metadata_type": "inject_code", "name": "blkA", "body_includes": ["c02_inc.h"], "private_members": ["int m_c02 = 0;", "int m_c02b = 0;"],
+     "ctor_lines": ["if (m_c02 > 5) {", "m_c02 = 0;", "}", "if (m_c02b > 5) {", "m_c02b = 0;", "}"], "initialize_lines": ["m_c02 += 1;", "m_c02b += 1;", "m_c02 += 1;"]},
     {"metadata_type": "add_cpp_function", "name": "C02F", "include_files": ["cmath"], "arguments": ["x"], "code": ["double t = x;", "auto result = std::sqrt(t * t) + 1.0;"], "return_type": "double"},
     {"metadata_type": "add_job_script", "name": "c02js", "script": ["# c02 job script"], "depends_on": []},
 ]
@@ -174,6 +176,16 @@ def run(ctx: Ctx) -> int:
                 if any(m["name"] == "C02F" for m in extra if "name" in m):
                     c.query = re.sub(r"(v\d+)\.pt\(\)", lambda m: f"C02F({m.group(0)})", c.query, count=1)
         cases += cs
+    # guard templates (partial operations in conditional tests / arms / guards): the shapes where scope handling is most delicate
+    from .c04 import templates as guard_templates
+    for backend in sch.BACKENDS:
+        s = sch.fixed(backend)
+        ts = guard_templates(backend, s)
+        for i, t in enumerate(ts):
+            if ctx.quick and (i + ctx.seed) % 2:
+                continue
+            extra = [EXTRA_MD[0]] if backend == "atlas" and i % 5 == 0 else []
+            cases.append(diff.Case(backend, t, evgen.gen_events(s, ctx.rng("gt", backend, i), 3), diff.members_used(s, t) + extra, tag={"features": {"guard_template": 2, f"t{i}": 1}}))
     trs = eng.translate(cases, monitors=["vf.props.c02:name_monitor"])
     for c in cases:
         eng.model(c.backend)
